@@ -1,7 +1,11 @@
 (* The context in which the generated slicing algorithms of curtsies/formatstring.py
    (Gen/PureFmt.v: FmtStr.__getitem__, FmtStr.divides, width_aware_slice,
-   FmtStr.width_aware_slice, and the getters Chunk.s, Chunk.atts, Chunk.__len__) are run by the
-   reference interpreter Spec/PyMini.v.
+   FmtStr.width_aware_slice, the getters Chunk.s, Chunk.atts, Chunk.__len__, and FmtStr.splice,
+   append, setslice_with_length, setitem, __add__, __radd__) are run by the reference
+   interpreter Spec/PyMini.v.  The contexts are strata: a generated method may call the
+   generated methods of the strata below it ([ctxF3]: splice, __add__, __radd__ -- they read
+   self.divides; [ctxF4]: append, setslice_with_length -- they call splice, __add__, __radd__;
+   [ctxF5]: setitem -- it calls setslice_with_length).
 
    OBJECTS.  A Chunk is  VRec "Chunk" [("_s", str); ("_atts", dict)]  -- its two instance
    attributes; a FmtStr is  VRec "FmtStr" [("chunks", list of Chunks)]  -- the instance
@@ -141,7 +145,39 @@ Definition funs_obj : funs :=
     ("Chunk.s", sem_Chunk_s); ("Chunk.atts", sem_Chunk_atts); ("Chunk.__len__", sem_Chunk_len) ].
 
 (* FmtStr.__getitem__ and FmtStr.divides do not depend on character widths *)
-Definition ctxF0 : ctx := mkCtx [] funs_obj no_method.
+Definition ctxF0 : ctx := mkCtx [] funs_obj no_method [] [].
+
+(* ---- stratum 1 of the algorithms that do not look at widths: FmtStr.splice -------------------
+   self.divides is the generated property getter, run in the context above; Chunk and FmtStr
+   are CLASSES of the module (isinstance(x, FmtStr): x is a FmtStr object; the translator checks
+   that they have no subclasses); Chunk may be called with keyword arguments, its parameter
+   names are generated from the live class (Gen/PureFmt.v [py_signatures]) *)
+Definition sem_FmtStr_divides : list val -> res val := call_in ctxF0 py_FmtStr_divides.
+Definition ctxF3 : ctx :=
+  mkCtx [] (("FmtStr.divides", sem_FmtStr_divides) :: funs_obj) no_method py_classes py_signatures.
+
+(* ---- stratum 2: the methods that call splice (append, setslice_with_length) and, through
+   `str + fs` / `fs + str`, FmtStr.__add__ / __radd__; stratum 3: setitem, which calls
+   setslice_with_length.  A METHOD of a class is the entry "Class.name()" of the context (a
+   property is "Class.name"): obj.name(args) runs it on obj :: args, and a + b with a FmtStr on
+   one side runs "FmtStr.__add__()" / "FmtStr.__radd__()" (Spec/PyMini.v [call_method], [bin_in]).
+   All of them are generated trees run by the interpreter; nothing is assumed here. *)
+Definition sem_FmtStr_splice : list val -> res val := call_in ctxF3 py_FmtStr_splice.
+Definition sem_FmtStr_add : list val -> res val := call_in ctxF3 py_FmtStr_add.
+Definition sem_FmtStr_radd : list val -> res val := call_in ctxF3 py_FmtStr_radd.
+Definition ctxF4 : ctx :=
+  mkCtx [] (("FmtStr.splice()", sem_FmtStr_splice) :: ("FmtStr.__add__()", sem_FmtStr_add)
+            :: ("FmtStr.__radd__()", sem_FmtStr_radd) :: funs_obj) no_method py_classes py_signatures.
+Definition sem_FmtStr_setslice_with_length : list val -> res val := call_in ctxF4 py_FmtStr_setslice_with_length.
+Definition ctxF5 : ctx :=
+  mkCtx [] (("FmtStr.setslice_with_length()", sem_FmtStr_setslice_with_length) :: funs_obj) no_method
+        py_classes py_signatures.
+
+(* an argument that may be a str or a FmtStr; an optional int *)
+Definition embed_operand (o : operand) : val :=
+  match o with OStr s => VStr s | OFmt g => embed_fmtstr g end.
+Definition embed_optZ (o : option Z) : val :=
+  match o with Some z => VInt z | None => VNone end.
 
 (* ---- widths ------------------------------------------------------------------------------ *)
 Section WithWidths.
@@ -196,9 +232,9 @@ Definition funs_width : funs :=
     ("Chunk.width", oracle_Chunk_width); ("FmtStr.width", oracle_FmtStr_width) ].
 
 (* stratum 1: the module-level width_aware_slice *)
-Definition ctxF1 : ctx := mkCtx [] ((funs_width ++ funs_obj)%list) no_method.
+Definition ctxF1 : ctx := mkCtx [] ((funs_width ++ funs_obj)%list) no_method [] [].
 Definition sem_width_aware_slice : list val -> res val := call_in ctxF1 py_width_aware_slice.
 
 (* stratum 2: FmtStr.width_aware_slice, which calls the module-level function of that name *)
-Definition ctxF2 : ctx := mkCtx [] (("width_aware_slice", sem_width_aware_slice) :: (funs_width ++ funs_obj)%list) no_method.
+Definition ctxF2 : ctx := mkCtx [] (("width_aware_slice", sem_width_aware_slice) :: (funs_width ++ funs_obj)%list) no_method [] [].
 End WithWidths.
